@@ -506,12 +506,13 @@ func newObservedMap(pass *analysishelper.EnhancedPass, files []*ast.File) *Obser
 					// docstring (this takes into account the syntax option to group declarations -
 					// in which a single keyword may be used to declare a group)
 					readDocNilabilitySet := func(specDoc *ast.CommentGroup) nilabilitySet {
-						if len(decl.Specs) == 1 {
+						if len(decl.Specs) == 1 && specDoc == nil {
 							// this reads declarations like type A struct {}
 							return nilabilityFromCommentGroup(decl.Doc)
 						}
 
-						// this reads declarations like type (A struct{}, B struct{})
+						// this reads declarations like type (A struct{}, B struct{}); a parenthesized
+						// group with a single spec carries its docstring on the spec as well
 						return nilabilityFromCommentGroup(specDoc)
 					}
 
